@@ -9,4 +9,5 @@ CONSTANTS
   Rank <- RankC
   Lookahead <- LookaheadC
   Order <- OrderC
+INVARIANT Consumed
 CHECK_DEADLOCK FALSE
